@@ -176,9 +176,27 @@ def setup_worker(tier):
               default_repo=rutil.DEFAULT_REPOSITORY_PATH, el={"H": hydrogen, "C": carbon, "Ne": neon, "D": deuterium}, memo={}, seq=0)
 
 
+def _rev():
+    """Edition number of the file being written: successive files of one case are written to the SAME path with different numbers, so a
+    parser (or installer) that keeps anything of an earlier file at that path returns numbers that are not on disk."""
+    return 0 if _G.get("iso") else _G["seq"] % 3
+
+
 def _fresh_dir(tag):
+    """An empty directory.  The SAME path is re-used for every file of a family within one case (the previous content is
+    removed first): successive generated files then live at one path with different content, so a result that is
+    remembered per file path instead of being read from the file shows up as a mismatch with the file on disk."""
+    import shutil
+    if _G.get("iso"):
+        # a minimisation trial: a path nothing was ever written to, so that the verdict on the trial file does not depend on the files before it
+        _G["iso_n"] = _G.get("iso_n", 0) + 1
+        d = os.path.join(_G["wd"], "iso_%d" % _G["iso_n"])
+        os.makedirs(d)
+        return d
     _G["seq"] += 1
-    d = os.path.join(_G["wd"], "%s_%d" % (tag, _G["seq"]))
+    d = os.path.join(_G["wd"], tag + "_" + _G.get("case_tag", "x"))      # shared by the files of ONE case only: cases stay independent
+    if os.path.isdir(d):
+        shutil.rmtree(d)
     os.makedirs(d)
     return d
 
@@ -251,7 +269,7 @@ def _gen11(f, d, kind="scd"):
     if f["layout"] == "rm":
         ms = META11[sym]
         multi = {z1: [(p, g) for p in range(1, ms[z1] + 1) for g in range(1, ms[z1 - 1] + 1)] for z1 in z1s}
-    ne, te, blocks = W.content_adf11(f["nne"], f["nte"], z1s, f["te0"] == "neg", multi)
+    ne, te, blocks = W.content_adf11(f["nne"], f["nte"], z1s, f["te0"] == "neg", multi, rev=_rev())
     name = "%s%s_%s.dat" % (kind, "89" if f["layout"] == "89" else "96" + ("r" if layout == "resolved" else ""), sym.lower())
     path = os.path.join(d, name)
     truth = W.write_adf11(path, el.name, el.atomic_number, ne, te, blocks, layout=layout, metastables=ms,
@@ -402,7 +420,7 @@ def eval15(f, with_install=True):
         sym, charge, style, fname, hfmt = A15["sty"][f["sty"]]
         el = _G["el"][sym]
         H = _G["el"]["H"]
-        blocks = W.content_adf15(f["nne"], f["nte"], f["nblocks"], style, f["types"])
+        blocks = W.content_adf15(f["nne"], f["nte"], f["nblocks"], style, f["types"], rev=_rev())
         index_only = []
         if f["absent"]:
             # the index table announces one more ISEL than there are data blocks
@@ -572,7 +590,7 @@ def eval12(f, with_install=True):
     try:
         H, C = _G["el"]["H"], _G["el"]["C"]
         meta = 1
-        blocks = W.content_adf12(f["nbeam"], f["nti"], f["ndi"], f["nze"], f["nb"], f["nblocks"])
+        blocks = W.content_adf12(f["nbeam"], f["nti"], f["ndi"], f["nze"], f["nb"], f["nblocks"], rev=_rev())
         fname = "qef93#h_c6.dat"
         path = os.path.join(d, fname)
         truth = W.write_adf12(path, blocks, letter=f["letter"], declared_count=f["nblocks"] + 1 if f["absent"] else None)
@@ -660,7 +678,7 @@ def eval2x(f, with_install=True):
         H, C = _G["el"]["H"], _G["el"]["C"]
         entry = f["entry"]
         norm = 1.0 if entry == "adf22bmp" else 1.0e-6
-        eb, dt, sv, tt, svt = W.content_adf21(f["neb"], f["ndt"], f["ntt"], scale=1.0e-3 if entry == "adf22bmp" else 1.0e-7)
+        eb, dt, sv, tt, svt = W.content_adf21(f["neb"], f["ndt"], f["ntt"], scale=1.0e-3 if entry == "adf22bmp" else 1.0e-7, rev=_rev())
         fname = {"adf21": "bms97#h_c6.dat", "adf22bmp": "bmp97#h_2_c6.dat", "adf22bme": "bme10#h_c6.dat"}[entry]
         path = os.path.join(d, fname)
         t = W.write_adf21(path, eb, dt, sv, tt, svt, letter=f["letter"], svref=3.317e-3 if entry == "adf22bmp" else 9.734e-8)
@@ -752,7 +770,11 @@ def _memo_fail(fam, f, with_install):
     if key not in m:
         if len(m) > 50000:
             m.clear()
-        m[key] = FAMILIES[fam][0](f, with_install=with_install).fail
+        _G["iso"] = True
+        try:
+            m[key] = FAMILIES[fam][0](f, with_install=with_install).fail
+        finally:
+            _G["iso"] = False
     return m[key]
 
 
@@ -781,8 +803,13 @@ def _run_file(fam, f, out):
         out["nontrivial"].append((fam,) + tuple(sorted(f.items())))
         out["summary"].append("ok")
         return res
-    fm = minimise(fam, f, res.fail)
-    sig = "C08:%s:%s:%s" % (res.fail[0], label(fm, res.fail), res.fail[1])
+    if _memo_fail(fam, f, res.fail[0].startswith("install")) != res.fail:
+        # the very same file is read correctly from a path that was never used before: what went wrong is the earlier edition at this path
+        fm = f
+        sig = "C08:%s:after-another-edition-at-the-same-path:%s" % (res.fail[0], res.fail[1])
+    else:
+        fm = minimise(fam, f, res.fail)
+        sig = "C08:%s:%s:%s" % (res.fail[0], label(fm, res.fail), res.fail[1])
     out["viol"].append({"sig": sig, "what": "%s on a generated %s file; failing file features %s (minimised to %s)" % (res.fail[0], fam, f, fm),
                         "expected": res.exp, "observed": res.obs})
     out["nontrivial"].append((fam,) + tuple(sorted(f.items())))
@@ -854,6 +881,10 @@ def _reject11(out):
 # ---------------------------------------------------------------------------------------------------------------
 def run_case(case):
     setup_worker(None)
+    import hashlib
+    import json as _json
+    _G["seq"] = 0
+    _G["case_tag"] = hashlib.blake2b(_json.dumps(case, sort_keys=True).encode(), digest_size=6).hexdigest()
     out = {"n": 0, "ops": 0, "states": [], "classes": [], "notes": [], "viol": [], "nontrivial": [], "summary": []}
     fam = case["fam"]
     if fam == "adf11":
